@@ -96,4 +96,5 @@ func genC15(c *Ctx) {
 		c.Sample(desc)
 	}
 	c15Conv(c)
+	c15RejectedFragments(c)
 }
